@@ -330,6 +330,12 @@ func (s *Subscription) unqueueEvents(reason uint8) {
 		return
 	}
 
+	// A disposed subscription has no events left to process, and must not
+	// have its access checked anew.
+	if s.state == stateDisposed {
+		return
+	}
+
 	// Start with reaccess calls
 	if s.flags&flagReaccess != 0 {
 		s.handleReaccess(nil)
